@@ -176,6 +176,8 @@ def jacobi_der(n, alpha, beta, x):
     # see https://dlmf.nist.gov/18.9
     # dPn = (1/2) (n + a + b + 1)P_{n-1}^{a+1,b+1}
     # first two terms are specialized for speed
+    # the derivative is floating point, also on an integer grid (x - 1 wraps around in an unsigned type)
+    x = np.asarray(x, dtype=np.result_type(x, 1.0))
     if n == 0:
         return np.zeros_like(x)
     if n == 1:
@@ -221,6 +223,8 @@ def jacobi_der_seq(ns, alpha, beta, x):
     # and we modify the arguments to
     ns = list(ns)
     min_i = 0
+    # the recurrence runs in floating point, also on an integer grid (x - 1 wraps around in an unsigned type)
+    x = np.asarray(x, dtype=np.result_type(x, 1.0))
     # rows hold what the recurrence produces: floats, also for integer coordinates
     out = np.empty((len(ns), *x.shape), dtype=np.result_type(x, 1.0))
     if ns[min_i] == 0:
